@@ -34,5 +34,16 @@ def run(ctx):
     check_effect_tables(ctx, "C07")
     from ..rules_common import check_presence_tests, ARG_SCOPE
     check_presence_tests(ctx, "C07.PRESENCE", classes=ARG_SCOPE.get("C07", []))
+    from ..rules_common import check_param_rebinding
+    check_param_rebinding(ctx, "C07.PARAMS", classes=ARG_SCOPE.get("C07", []))
+    # C07.STATELESS - the ISO parser keeps nothing between calls in a class object or a module-level container
+    from ..rules_common import shared_state_writes
+    w_ = shared_state_writes(ctx.prog, "parser.isoparser")
+    iso_ = ctx.prog.method(ctx.prog.cls("parser.isoparser.isoparser", "C07.STATELESS").qualname, "isoparse", "C07.STATELESS")
+    ctx.ob("C07.STATELESS", iso_ if not w_ else w_[0][0], "no function of the ISO parser module stores into a class object or a module-level container "
+           "(what a string parses to does not depend on what was parsed before, with which options)", not w_,
+           construct="shared-state writes in dateutil.parser.isoparser: %d" % len(w_),
+           detail="" if not w_ else "; ".join("%s: %s" % (f_.qualname.split("dateutil.")[-1], t_) for f_, n_, t_ in w_[:4]),
+           analysis="who-may-write: stores / mutator calls whose base is a class object or a module-level container")
 
 
